@@ -1,0 +1,26 @@
+//go:build verif
+
+// Machine-checked contracts (Gobra-style //@ comments) for the verification harness in /verif.
+// This file contains no code; it is compiled only under the build tag "verif".
+package pbft
+
+// ---------------------------------------------------------------------------------------------
+// block validation against the consensus state (C02)
+
+//@ func (*ConsensusState).ValidateBlock
+//@   props C02 C08
+//@   let s = cs.state
+//@   requires cs != nil && cs.state != nil && wfValSet(cs.state.Validators) && wfValSet(cs.state.LastValidators) && wfBlock(block)
+//@   assigns  block.Data.hash, block.LastCommit.hash, block.LastCommit.firstPrecommit, cs.state.LastValidators.totalVotingPower
+//@   ensures  [chain-id] result == nil ==> block.Header.ChainID == s.ChainID
+//@   ensures  [height-follows] result == nil ==> block.Header.Height == s.LastBlockHeight + 1
+//@   ensures  [extends-last-block] result == nil ==> blockIDEq(block.Header.LastBlockID, s.LastBlockID)
+//@   ensures  [app-hash] result == nil ==> bytesEq(block.Header.AppHash, s.AppHash)
+//@   ensures  [receipts-hash] result == nil ==> bytesEq(block.Header.ReceiptsHash, s.ReceiptsHash)
+//@   ensures  [num-txs] result == nil ==> block.Header.NumTxs == len(block.Data.Txs) + len(block.Data.ExTxs)
+//@   ensures  [data-hash-commits] result == nil ==> bytesEq(block.Header.DataHash, block.Data.hash)
+//@   ensures  [commit-hash-commits] result == nil ==> bytesEq(block.Header.LastCommitHash, block.LastCommit.hash)
+//@   ensures  [proposer-is-validator] result == nil ==> exists(j, 0, len(s.Validators.Validators), bytesEq(s.Validators.Validators[j].Address, block.Header.ProposerAddress))
+//@   ensures  [first-block-has-no-commit] result == nil && block.Header.Height == 1 ==> len(block.LastCommit.Precommits) == 0
+//@   ensures  [last-commit-size] result == nil && block.Header.Height != 1 ==> len(block.LastCommit.Precommits) == len(s.LastValidators.Validators)
+//@   ensures  [validators-hash-commits] result == nil ==> bytesEq(block.Header.ValidatorsHash, valSetHashOf(s.Validators))
